@@ -512,7 +512,7 @@ pub fn run_engine(s: &mut Src, ctx: &mut Ctx) -> Verdict {
     if !raw_list.is_empty() {
         ctx.label("fact-put-straight-into-working-memory");
     }
-    let mut eng = IncrementalEngine::new();
+    let mut eng = crate::core::new_or_default(IncrementalEngine::new);
     for w in 0..warm {
         let h = eng.insert_explicit("Warm".to_string(), data(1000 + w));
         if w % 2 == 1 {
@@ -611,7 +611,7 @@ pub fn run_tms(s: &mut Src, ctx: &mut Ctx) -> Verdict {
     }
     let warm = if ctx.exh == 0 && s.chance(1, 6) { crate::c17::warm_count(s) } else { 0 };
     ctx.describe(|| if warm > 0 { format!("TMS whose handles start at {} after {} unrelated facts (every second retracted); {}", warm + 1, warm, show(&ops)) } else { show(&ops) });
-    let mut tms = TruthMaintenanceSystem::new();
+    let mut tms = crate::core::new_or_default(TruthMaintenanceSystem::new);
     for w in 0..warm {
         let h = FactHandle::new(w as u64 + 1);
         tms.add_explicit_justification(h);
